@@ -343,6 +343,13 @@ func (c *Ctx) zeroVal(t types.Type, lift []string) Val {
 		return c.zeroObj(name)
 	case kFunc:
 		return Fn{Kind: "nil"}
+	case kTuple:
+		tt := t.(*types.Tuple)
+		e := make([]Val, tt.Len())
+		for i := range e {
+			e[i] = c.zeroVal(tt.At(i).Type(), lift)
+		}
+		return Tup{e}
 	}
 	panic("zeroVal: " + typeName(t))
 }
